@@ -397,6 +397,12 @@ control("C16", "legacy spellings resolve their default category from the quantit
         [(UD, "            unit_info = self.unit_to_unit_info[fixed_unit]\n        category = unit_info.default_category", "            category = self.GetQuantityType(fixed_unit)\n            if category in self.categories_to_quantity_types:\n                return category\n            return None\n        category = unit_info.default_category")], "C16.R6")
 control("C20", "joined exponents computed over adjacent runs only",
         [(Q, "                existing = ret.get(unit, 0)\n                ret[unit] = existing + exp\n            self._composing_units_joining_exponents = tuple(ret.items())", "                ret[len(ret)] = (unit, exp)\n            self._composing_units_joining_exponents = tuple(ret.values())")], "C20.R5")
+control("C03", "composing units compared as ordered tuples",
+        [(UD, "            composing_units1 = set(quantity1.GetComposingUnitsJoiningExponents())\n            composing_units2 = set(quantity2.GetComposingUnitsJoiningExponents())", "            composing_units1 = quantity1.GetComposingUnitsJoiningExponents()\n            composing_units2 = quantity2.GetComposingUnitsJoiningExponents()")], "C03.R6")
+control("C09", "empty-operand fallback keeps the operand's quantity",
+        [(AR, "                q, _ = operation_func(q1, q2, 1.0, 1.0)", "                q = q2 if IsNumber(p1) else q1")], "C09.R5")
+control("C10", "empty operands leave the pair generator before the length check",
+        [(VG, "            if len(self.p1) != len(self.p2):\n                raise ValueError(", "            if not self.p1 or not self.p2:\n                return\n            if len(self.p1) != len(self.p2):\n                raise ValueError(")], "C10.R2")
 # ------------------------------------------------------------------------------------------ running
 def _apply(edits):
     overlay = {}
